@@ -241,6 +241,37 @@ def gen_case(rng, focus=None):
     return case
 
 
+def may_expire(case):
+    """a worker death with a reader held open: the real run then sits out 1 s join timeouts"""
+    return bool(case.get("never_eof")) and has_exc(case)
+
+
+def quick_cases(rng, n, focus=None, slice_k=120, max_expiring=5):
+    """quick tier: a slice of the small scope + n generated cases, with at most `max_expiring`
+    cases that cost real seconds (1 s per expiring join); the thorough tier runs them all"""
+    expiring = 0
+    out = 0
+    pool = small_sample(rng, slice_k * 3)
+    taken = 0
+    for c in pool:
+        if taken >= slice_k:
+            break
+        if may_expire(c):
+            if expiring >= max_expiring:
+                continue
+            expiring += 1
+        taken += 1
+        yield c
+    while out < n:
+        c = gen_case(rng, focus)
+        if may_expire(c):
+            if expiring >= max_expiring + 3:
+                continue
+            expiring += 1
+        out += 1
+        yield c
+
+
 def small_sample(rng, k):
     """a capped random slice of the small-scope enumeration (quick tier)"""
     cs = list(small_cases("quick"))
